@@ -60,6 +60,15 @@ Proof.
   unfold dz_run_hook. destruct (negb (dd_null d) && (dz_len d =? 0)); intros H; inversion H; subst; wsimpl; auto.
 Qed.
 
+Lemma dz_cb_clock_spec (w : world) :
+  w_entity OT (dz_cb_clock OT c w) = w_entity OT w /\ w_message OT (dz_cb_clock OT c w) = w_message OT w.
+Proof.
+  unfold dz_cb_clock, dz_gettimeofday.
+  destruct (w_nbcb OT w mod c_HTP_COMPRESSION_TIME_FREQ_TEST =? 0); auto.
+  destruct (dz_timer_track (w_tspent OT (w_tick_clock OT w)) (dc_clock c (w_nclock OT w)) (w_tbefore OT (w_tick_clock OT w))) as [sp|];
+    [destruct (sp >? dc_tlimit c)|]; wsimpl; auto.
+Qed.
+
 Lemma dz_callback_spec d (w : world) w' rc :
   dz_callback OT c d w = (w', rc) ->
   w_message OT w' = w_message OT w /\ w_entity OT w' = w_entity OT w + dz_len d /\ (rc = c_HTP_OK -> dz_clean w').
@@ -69,17 +78,81 @@ Proof.
   apply dz_run_hook_spec in Hh. wsimpl. destruct Hh as [He Hm].
   destruct (negb (hrc =? c_HTP_OK)) eqn:Hrc.
   - intros H; inversion H; subst. repeat split; auto. intros Hx. exfalso. apply dz_ok_ne_error. exact Hx.
-  - set (w2 := w_set_nbcb OT w1 (w_nbcb OT w1 + 1)).
-    set (w3 := if w_nbcb OT w2 mod c_HTP_COMPRESSION_TIME_FREQ_TEST =? 0 then _ else w2).
-    assert (H3 : w_entity OT w3 = w_entity OT w1 /\ w_message OT w3 = w_message OT w1).
-    { subst w3. destruct (w_nbcb OT w2 mod c_HTP_COMPRESSION_TIME_FREQ_TEST =? 0); [|subst w2; wsimpl; auto].
-      unfold dz_gettimeofday.
-      destruct (dz_timer_track (w_tspent OT (w_tick_clock OT w2)) (dc_clock c (w_nclock OT w2)) (w_tbefore OT (w_tick_clock OT w2))) as [sp|];
-        [destruct (sp >? dc_tlimit c)|]; subst w2; wsimpl; auto. }
-    destruct H3 as [H3e H3m].
+  - destruct (dz_cb_clock_spec (w_set_nbcb OT w1 (w_nbcb OT w1 + 1))) as [H3e H3m]. wsimpl.
+    set (w3 := dz_cb_clock OT c (w_set_nbcb OT w1 (w_nbcb OT w1 + 1))) in *.
     destruct ((w_entity OT w3 >? dc_bomb c) && (w_entity OT w3 >? R * w_message OT w3)) eqn:Hb;
       intros H; inversion H; subst; (repeat split; [congruence | congruence | ]).
     + intros Hx. exfalso. apply dz_ok_ne_error. exact Hx.
-    + intros _. unfold dz_clean, dz_M. apply andb_false_iff in Hb. destruct Hb as [Hb|Hb]; apply Z.gtb_ltb in Hb; rewrite Z.ltb_ge in Hb; lia.
+    + intros _. unfold dz_clean, dz_M. apply andb_false_iff in Hb. destruct Hb as [Hb|Hb]; rewrite Z.gtb_ltb, Z.ltb_ge in Hb; lia.
+Qed.
+
+Lemma dz_M_eq (w w' : world) : w_message OT w' = w_message OT w -> dz_M w' = dz_M w.
+Proof. unfold dz_M. intros ->. reflexivity. Qed.
+
+Lemma dz_end_spec l (w : world) l' w' :
+  dz_end OT ask l w = (l', w') ->
+  w_entity OT w' = w_entity OT w /\ w_message OT w' = w_message OT w /\ dz_obuf l' = dz_obuf l /\ dz_pass l' = dz_pass l /\ dz_zinit l' = 0.
+Proof.
+  unfold dz_end. destruct (dz_zinit l =? c_dz_COMPRESSION_LZMA).
+  - destruct (dz_ask OT ask w QLzFree) as [a w1] eqn:Ha. apply dz_ask_spec in Ha. intros H; inversion H; subst; wsimpl. intuition.
+  - destruct (negb (dz_zinit l =? 0)) eqn:Hz.
+    + destruct (dz_ask OT ask w QEnd) as [a w1] eqn:Ha. apply dz_ask_spec in Ha. intros H; inversion H; subst; wsimpl. intuition.
+    + intros H; inversion H; subst. apply negb_false_iff, Z.eqb_eq in Hz. intuition.
+Qed.
+
+Lemma dz_restart_dec_spec l data (w : world) l' w' oc :
+  dz_restart_dec OT ask l data w = (l', w', oc) ->
+  w_entity OT w' = w_entity OT w /\ w_message OT w' = w_message OT w /\ dz_obuf l' = dz_obuf l /\ dz_pass l' = dz_pass l.
+Proof.
+  unfold dz_restart_dec.
+  destruct (dz_restart l <? 3)%nat; [|intros H; inversion H; subst; auto].
+  destruct (dz_restart l =? 0)%nat.
+  { destruct (dz_ask OT ask w _) as [a w1] eqn:Ha. apply dz_ask_spec in Ha.
+    destruct (negb (da_rc a =? c_dz_Z_OK)); intros H; inversion H; subst; wsimpl; intuition. }
+  destruct (dz_zinit l =? c_dz_COMPRESSION_DEFLATE).
+  { destruct (dz_ask OT ask w _) as [a w1] eqn:Ha. apply dz_ask_spec in Ha.
+    destruct (negb (da_rc a =? c_dz_Z_OK)); intros H; inversion H; subst; wsimpl; intuition. }
+  destruct (dz_zinit l =? c_dz_COMPRESSION_GZIP).
+  { destruct (dz_ask OT ask w _) as [a w1] eqn:Ha. apply dz_ask_spec in Ha.
+    destruct (negb (da_rc a =? c_dz_Z_OK)); intros H; inversion H; subst; wsimpl; intuition. }
+  intros H; inversion H; subst; auto.
+Qed.
+
+Lemma dz_wf_app l out : dz_wf l -> (length out <= dz_avail_out l)%nat -> dz_wf (dz_set_obuf l (dz_obuf l ++ out)).
+Proof. unfold dz_wf, dz_avail_out. wsimpl. rewrite app_length. lia. Qed.
+
+(* the external decoding step delivers nothing *)
+Lemma dz_decode_spec d l (w : world) input rc :
+  dz_wf l ->
+  match dz_decode OT ask d l w input rc with
+  | inl (l', w', _, _) => w_entity OT w' = w_entity OT w /\ w_message OT w' = w_message OT w /\ dz_wf l' /\ dz_pass l' = dz_pass l
+  | inr (l', w', _) => w_entity OT w' = w_entity OT w /\ w_message OT w' = w_message OT w /\ dz_wf l' /\ dz_pass l' = dz_pass l
+  end.
+Proof.
+  intros Hwf. unfold dz_decode.
+  destruct (dz_zinit l =? c_dz_COMPRESSION_LZMA).
+  - destruct (dz_lz_header d l input) as [l1 input1] eqn:Hh.
+    assert (Hp : dz_wf l1 /\ dz_pass l1 = dz_pass l).
+    { unfold dz_lz_header in Hh. destruct (dz_hlen l <? c_dz_LZMA_HEADER_SIZE); inversion Hh; subst; auto. }
+    destruct Hp as [Hwf1 Hp1].
+    destruct (dz_hlen l1 =? c_dz_LZMA_HEADER_SIZE).
+    + destruct (dz_ask OT ask w QLzAlloc) as [a w1] eqn:Ha. apply dz_ask_spec in Ha.
+      destruct (negb (da_rc a =? c_dz_SZ_OK)); [intuition|].
+      wsimpl.
+      destruct (dz_hlen l1 + 1 >? c_dz_LZMA_HEADER_SIZE).
+      * destruct (dz_ask OT ask w1 (QLzDecode input1 (dz_avail_out (dz_set_hlen l1 (dz_hlen l1 + 1))))) as [a2 w2] eqn:Ha2.
+        apply dz_ask_spec in Ha2. destruct Ha as (?&?&_). destruct Ha2 as (?&?&?&?).
+        repeat split; try congruence; unfold dz_wf, dz_avail_out in *; wsimpl; try rewrite app_length; try lia; auto.
+      * intuition.
+    + destruct (dz_hlen l1 >? c_dz_LZMA_HEADER_SIZE).
+      * destruct (dz_ask OT ask w (QLzDecode input1 (dz_avail_out l1))) as [a2 w2] eqn:Ha2.
+        apply dz_ask_spec in Ha2. destruct Ha2 as (?&?&?&?).
+        repeat split; try congruence; unfold dz_wf, dz_avail_out in *; wsimpl; try rewrite app_length; try lia; auto.
+      * intuition.
+  - destruct (negb (dz_zinit l =? 0)).
+    + destruct (dz_ask OT ask w (QInflate input (dz_avail_out l))) as [a2 w2] eqn:Ha2.
+      apply dz_ask_spec in Ha2. destruct Ha2 as (?&?&?&?).
+      repeat split; try congruence; unfold dz_wf, dz_avail_out in *; wsimpl; try rewrite app_length; try lia; auto.
+    + intuition.
 Qed.
 End Bound.
